@@ -9,6 +9,29 @@ HERE = os.path.dirname(os.path.dirname(os.path.abspath(__file__)))
 TECH = 'bounded exhaustive enumeration (explicit-state exploration of the real code against an independent reference model)'
 
 CHECKS = {
+    'C01': dict(
+        text='Complete sweep of a structured lattice on the real geo2grid: 19 (ellipsoid, projection) configurations x '
+             'latitude lattice (band limits, equator +-1e-12..1e-6, fill) x automatic-zone longitudes (every zone boundary '
+             'and central meridian +-1e-9/1e-6, fill) and explicit zones x offsets to 30 deg, x 6 input types; each state '
+             'compared with the exact Transverse Mercator (Gauss-Krueger by definition: complex isometric latitude + '
+             'meridian-arc quadrature). quick ~1.3 M states, thorough ~20 M.',
+        note='Exact TM in float64, validated at every run against 34-digit mpmath (<2e-8 m) and the elliptic-integral '
+             'closed form; continuum decided on lattices (finest regular spacing 1 x 1.5 deg + seed-shifted copy).',
+        design='§5/C01'),
+    'C02': dict(
+        text='Depth-3 exploration geo->grid->geo->grid from every C01 state, plus a lattice placed directly on the grid '
+             '(zones x hemispheres x E x N, domain classified by the oracle inverse) with mirror pairs, plus the '
+             'stand-alone converter (function and csv batch path) against the library.',
+        note='Domain clauses evaluated by the exact-TM oracle; mirror "identical" read at the 11-decimal output '
+             'resolution; one open finding (longitude closure at |lat|>70 deg limited by 0.1 mm output rounding).',
+        design='§5/C02'),
+    'C10': dict(
+        text='Every C01 state and its grid2geo image: point scale factor and grid convergence against '
+             'k=|dz/dzeta|/(nu cos phi), gamma=arg(dz/dzeta) of the exact projection for the requested ellipsoid and '
+             'projection, all four quadrants, |lon-CM|<=30 deg; forward vs inverse at the same point.',
+        note='Sign convention validated against a finite difference of the oracle image of the meridian; float64 oracle '
+             'validated against mpmath at run time.',
+        design='§5/C10'),
     'C11': dict(
         text='Complete enumeration of a finite space: all 120 Transformation constants, all 59 forward/reverse '
              'pairs, all 384 ITRF triples compared in exact rational arithmetic, an IERS tuple lattice, and an '
